@@ -40,7 +40,9 @@ fn ui(tr: &mut Tr, tag: &str, f: impl FnOnce() -> i64, expect: i64) {
     }
 }
 fn secs(t: Time) -> f32 {
-    t.0 as f32 / 1_000_000_000.0
+    // the crate's own Time -> seconds conversion (what it must be, to within two ulps, is C18's business; a benign
+    // refactor that computes it through f64 raised a false alarm against a hard-coded `ns as f32 / 1e9` here)
+    Quantity::from(t).value
 }
 
 pub fn illdim(tr: &mut Tr, g: &mut G) {
@@ -144,8 +146,8 @@ pub fn illdim(tr: &mut Tr, g: &mut G) {
             None => tr.u_word("ill.time_try_from", "", "panic"),
             Some(Err(())) => tr.u_word("ill.time_try_from", "", "rejected"),
             // (the conversion is specified as value*1e9 "to within one f32 rounding and 1 ns of truncation": whether the
-            // fractional nanosecond is dropped or rounded is not fixed, so 1 ns either way counts as the plain result)
-            Some(Ok(t)) => { let e = (xs * 1_000_000_000.0) as i64; tr.u_i("ill.time_try_from", "", t.0, if (t.0 - e).abs() <= 1 { t.0 } else { e }) }
+            // fractional nanosecond is dropped or rounded is not fixed, so one f32 rounding of the product (|e| * 2^-22) plus 1 ns either way counts as the plain result)
+            Some(Ok(t)) => { let e = (xs * 1_000_000_000.0) as i64; tr.u_i("ill.time_try_from", "", t.0, if ((t.0 - e).abs() as f64) <= 1.0 + (e.abs() as f64) / 4194304.0 { t.0 } else { e }) }
         }
         let q = Quantity::new(xd, unit_not(g, 0, 0));
         match catch(|| DimensionlessInteger::try_from(q)) {
@@ -334,7 +336,7 @@ pub fn illdim_edges(tr: &mut Tr, g: &mut G, full: bool) {
         match catch(|| Time::try_from(Quantity::new(x, ws))) {
             None => tr.u_word("ill.edge.time_try_from", "", "panic"),
             Some(Err(())) => tr.u_word("ill.edge.time_try_from", "", "rejected"),
-            Some(Ok(t)) => { let e = (x * 1_000_000_000.0) as i64; tr.u_i("ill.edge.time_try_from", "", t.0, if (t.0 - e).abs() <= 1 { t.0 } else { e }) }
+            Some(Ok(t)) => { let e = (x * 1_000_000_000.0) as i64; tr.u_i("ill.edge.time_try_from", "", t.0, if ((t.0 - e).abs() as f64) <= 1.0 + (e.abs() as f64) / 4194304.0 { t.0 } else { e }) }
         }
     }
     let s0 = g.st(1e3);
